@@ -283,7 +283,8 @@ claim("C01", "proof",
       "the whole pipeline in-process and the real binary on special inputs (odd literals, pragmas, strings, arities, main forms), 14 nesting "
       "shapes up to depth 100, generated projects with token- and byte-level mutations, token soup, random and non-UTF-8 bytes, 3 curves x 3 "
       "levels: only a normal return / exit 0 or 1 with the summary line within the time limit is accepted; crashes are grouped by site and "
-      "shrunk. The outcome search runs the code under an 8 GB address-space limit and includes nested-index shapes (fix 661c0c6: exponential growth of cached variable uses).",
+      "shrunk. The outcome search runs the code under an 8 GB address-space limit and includes nested-index shapes (fix 661c0c6: exponential growth of cached variable uses). Tie 3 (proportion): ten wide shapes (hundreds of consecutive ifs / "
+      "loops / chained signals, thousands of terms), each alone through the real binary under 40 s and 3 GB (fixes a7712ea, 7abcad3, f14e374).",
       "Lean kernel + standard axioms for the cited theorems; sites with disposition guarded/invariant/environment rest on the stated reason "
       "and on the outcome search, not on a proof; implicit panics (indexing, arithmetic overflow in debug builds, allocation failure, stack "
       "depth beyond the 1 GB thread, superlinear time on nesting deeper than 100) are only searched for.",
